@@ -41,7 +41,9 @@ REQUIRED_COUNTERS = ["state_comparisons", "copy_comparisons",
 
 ABIS = {"x64": (gtirb.Module.ISA.X64, 16, "little", 8),
         "arm64": (gtirb.Module.ISA.ARM64, 32, "little", 8),
-        "mips32": (gtirb.Module.ISA.MIPS32, 32, "little", 4)}
+        "mips32": (gtirb.Module.ISA.MIPS32, 32, "little", 4),
+        # PE: no DWARF return column is defined
+        "x64-pe": (gtirb.Module.ISA.X64, None, "little", 8)}
 NULL = uuidlib.UUID(int=0)
 
 
@@ -62,7 +64,7 @@ def gen_expr(rng, ptr=4):
 
 
 def gen_case(rng, tier, index):
-    abi = rng.choice(list(ABIS))
+    abi = rng.choice([a for a in ABIS if a != "x64-pe"] * 3 + ["x64-pe"])
     order, ptr = ABIS[abi][2], ABIS[abi][3]
     nblocks = rng.randrange(1, 6)
     sizes = [rng.randrange(1, 9) for _ in range(nblocks)]
@@ -273,7 +275,9 @@ def build(case):
         case.get("undefined_byte_order") and case["abi"] in ("x64", "arm64")
     ) else gtirb.Module.ByteOrder.Little
     m = gtirb.Module(name="t", isa=isa,
-                     file_format=gtirb.Module.FileFormat.ELF,
+                     file_format=gtirb.Module.FileFormat.PE
+                     if case["abi"].endswith("-pe")
+                     else gtirb.Module.FileFormat.ELF,
                      byte_order=bo)
     m.ir = ir
     sec = gtirb.Section(name=".text")
